@@ -278,6 +278,7 @@ def shards(tier):
     out.append({"kind": "numeric-special"})
     for i in range(8):
         out.append({"kind": "encode", "part": i, "of": 8, "stride": 4 if quick else 1})
+    out.append({"kind": "encode-named"})
     return out
 
 
@@ -406,6 +407,28 @@ def run_shard(desc, seed, tier):
                         acc.add(case, v)
                         acc.count("encoded-codepoints:" + enc, len(text))
         acc.exhaustive = stride == 1
+    elif kind == "encode-named":
+        # every code point that has a name in the standard's table (these are the ones the serializer writes as named
+        # references), in every tier, each followed by the characters that would be misread after an unterminated name
+        from html.entities import html5 as TABLE
+        cps = sorted(set(ord(v) for v in TABLE.values() if len(v) == 1) | set(range(0xA0, 0x180)))
+        for enc in ("ascii", "koi8-r"):
+            for i in range(0, len(cps), 16):
+                ch = cps[i:i + 16]
+                for sep in ("", "a", ";", "=1", "9", "x;", "A"):
+                    text = "".join(chr(c) + sep for c in ch)
+                    for where in ("text", "attr"):
+                        case = {"kind": "encode", "text": text, "encoding": enc, "where": where}
+                        v = check_case(case)
+                        if v.status == "fail":
+                            for c in ch:
+                                c1 = {"kind": "encode", "text": chr(c) + sep, "encoding": enc, "where": where}
+                                v1 = check_case(c1)
+                                if v1.status != "pass":
+                                    acc.add(c1, v1)
+                        else:
+                            acc.add(case, v)
+                            acc.count("encoded-named-codepoints:" + enc, len(ch))
     return acc
 
 
